@@ -417,10 +417,19 @@ def generate(unit_path):
     out = '\n'.join(em.lines) + '\n'
     # mechanical scan for trusted constructs
     for n, ln in enumerate(em.lines, 1):
-        for pat in ('external_body', 'assume_specification', 'assume(', 'admit(', 'verifier::external',
-                    'verifier::exec_allows_no_decreases_clause', 'no_decreases'):
-            if pat in ln and not ln.strip().startswith('//'):
-                em.trusted.append({'line': n, 'what': pat, 'text': ln.strip()[:160]})
+        st = ln.strip()
+        if st.startswith('//'):
+            continue
+        if 'verifier::external_body' in st or 'verifier::external' in st:
+            # name the function the attribute is attached to
+            sig = next((em.lines[k].strip() for k in range(n, min(n + 4, len(em.lines))) if re.search(r'\bfn\s+\w+', em.lines[k])), st)
+            em.trusted.append({'line': n, 'what': 'external_body (contract assumed, body not verified)', 'text': sig[:160]})
+        elif 'assume_specification' in st:
+            em.trusted.append({'line': n, 'what': 'assume_specification', 'text': st[:160]})
+        elif re.search(r'\bassume\(', st) or 'admit(' in st:
+            em.trusted.append({'line': n, 'what': 'assume/admit', 'text': st[:160]})
+        elif 'exec_allows_no_decreases_clause' in st:
+            em.trusted.append({'line': n, 'what': 'no decreases clause', 'text': st[:160]})
     return em, out
 
 
